@@ -22,12 +22,24 @@ CHECKS = {
 }
 
 CHECKS.update({
+    "C01": dict(
+        category="model_checking",
+        technique="TLA+ save scripts (typed trees) enumerated by TLC for MsgPack / JSON / XML with the load-back observation the abstract semantics (LoadScript!Exec on the abstract document) prescribes; the real archive saves each script to memory and to a stream in the chosen configuration and loads the produced bytes back from memory, stringstream and a short-read stream; observations compared with the prescription",
+        text="TLC enumerates typed values at numeric extremes and format thresholds, strings over the Unicode range, floats, time points, containers, typed-key maps, nested objects/arrays, base classes and objects growing member by member x output configuration (pretty printing with padding, 5 encodings, BOM on/off for the text archives) and checks the specification's own encoder/renderer/parser consistency in every state; each state is saved by the real archive (memory and stream) and the produced bytes are loaded back through three media with the mirrored script: the events must equal those of loading the abstract document (value equality for every member, bool results, sentinel), or the save must fail with an exception when the format cannot carry the value (NaN/Infinity in JSON). The documents themselves are judged by the independent parsers of C06/C08/C09, so symmetric save/load errors cannot hide.",
+        note="Archives: MsgPack, JSON, XML through the scripted driver; CSV tables round-trip in C09. XML results are prescribed only where its data model is unambiguous. The load-save-load fixed point is exercised through the C03/C07/C08 legs that load spec-rendered documents and the save legs; a dedicated fixed-point leg is not built. Known findings: XML CR normalisation, BOM-less UTF-16/32 JSON not detectable, empty string / empty container in XML.",
+        design_ref="DESIGN.md#c01"),
     "C03": dict(
         category="model_checking",
         technique="TLA+ abstract load semantics (LoadScript) explored by TLC in path mode: every request history up to the bound x documents x encodings x paddings; every behaviour replayed through the public API on memory and four stream kinds at window 8 and 256; observations compared with the events the spec prescribes",
         text="TLC enumerates all object documents (up to 3 keys incl. typed keys, nested arrays/objects, a 20-byte string) x all request scripts up to the bound (present/absent/repeated keys, both target kinds, nested open/partial read/close, VisitKeys) and checks the property-level invariants (sentinel intact, failed request leaves target unchanged) on the abstract semantics; each state is exported with the prescribed observation and executed on the real MsgPack archive from memory and from stringstream / short-read / non-seekable streams with the reader window shrunk to 8 bytes (every alignment) and at the real 256 bytes with paddings across the boundary.",
         note="Trusted: TLC, the scripted driver harness (public API only), spec/LoadScript.tla as the statement of the documented semantics. MessagePack, JSON and XML archives (CSV by-name reads are covered by C09); bounds: scripts <= 2 (quick) / 3 (thorough) requests, documents <= 3 members.",
         design_ref="DESIGN.md#c03"),
+    "C04": dict(
+        category="model_checking",
+        technique="TLA+ typed-load semantics (LoadScript!LoadLeaf: exact / rounded / Overflow / Mismatched / skip) explored by TLC in numeric mode: exhaustive integer source range + every type limit +-2 + 2^k +-1 + booleans + floats x 11 arithmetic targets x positions x legal MsgPack formats / JSON / XML renderings x policies; replayed on the real archives and compared",
+        text="TLC enumerates every integer of -130..260 (quick) / -32770..65540 (thorough) plus all type limits +-2, 2^k +-1 for k in {7,8,15,16,24,31,32,53,63}, booleans and floating point values as sources, all 11 arithmetic targets, root / array element / object member positions, every MessagePack format able to carry the value (incl. the signed family for non-negative values and wider formats), JSON and XML text, and both OverflowNumberPolicy / MismatchedTypesPolicy settings; the abstract semantics prescribes: the same mathematical value stored, rounding only into floating point targets, Overflow or MismatchedTypes per policy, or skip with the target untouched; the real archives must produce exactly these events (loaded flag, value or prior value, exception code).",
+        note="int -> float is prescribed for |n| < 2^24 only (larger magnitudes into float targets are left open); XML attributes, CSV cells and map keys are not driven by this check (text cells: C09/C16, typed keys: C03/C07). Direct Convert::To between arithmetic types is reached through the MsgPack reader (ConvertByPolicy). Known findings: negative text into unsigned target reports MismatchedTypes; JSON integers below -2^63 are read as doubles.",
+        design_ref="DESIGN.md#c04"),
     "C05": dict(
         category="model_checking",
         technique="TLA+ abstract load semantics with Skip policies explored by TLC over well-typed document shapes with every subset (up to the bound) of values replaced by offending values; invariants SkipNeverThrows/SkipKeepsShape; all behaviours replayed on the real archive and compared",
